@@ -523,6 +523,12 @@ def check_main(prop_id, level_text, obligations_fn, argv):
     sc = Scratch()
     try:
         if args.replay:
+            # regenerate whatever the check generates into the scratch dir (headers extracted from /repo,
+            # catalogues, ...) so that the replay TU compiles exactly like during the run
+            try:
+                obligations_fn(tier, sc)
+            except Exception as exn:
+                print("note: could not regenerate the check's generated inputs: %s" % exn)
             return replay_file(sc, args.replay)
         kfs = [k for k in load_known_findings() if k.get("property") == prop_id]
         open_kfs = [k for k in kfs if k.get("status") == "open"]
